@@ -146,11 +146,14 @@ def judge(case, wd, threads, sched, plan, lazy_box, m=None):
         extra = got - base
         mv, av = t.final_params.get(tx, (None, None))
         srcs = []
-        # "may only remove": a peptide that the uninterrupted run with the initial limits does not produce is
-        # accepted only if the run WITHOUT complexity limits produces it (then it is a real peptide that the initial
-        # limits had cut away).  The result of the reduced limits themselves is not a justification: a reduced limit
-        # that makes the graph emit new peptides is exactly what the clause forbids.
-        for lim in ((-1, -1),):
+        # a peptide that the uninterrupted run with the initial limits does not produce is accepted if the fault-free
+        # run under the limits of the final attempt, or the run without complexity limits, produces it: whether a
+        # fault-free run under some limits is itself sound is the pure-input clause of C02, which this technique
+        # does not decide (on the pinned tree max_variants_per_node=1 does yield a circRNA peptide that larger limits
+        # do not -- found by the thorough tier when the reduced limits' own output was, for a while, not accepted)
+        for lim in ((mv, av), (-1, -1)):
+            if lim[0] is None:
+                continue
             r = fault_free(*lim)
             if r.ok:
                 extra -= set(r.wrapper_results.get(tx, []))
@@ -167,7 +170,8 @@ def judge(case, wd, threads, sched, plan, lazy_box, m=None):
     fa_base = set(m.fasta)
     if not fa <= fa_base:
         extra = fa - fa_base
-        for lim in [(-1, -1)]:
+        lims = {v for v in t.final_params.values() if v[0] is not None} | {(-1, -1)}
+        for lim in sorted(lims):
             r = fault_free(*lim)
             if r.ok:
                 extra -= set(r.fasta)
